@@ -18,7 +18,7 @@ package generator
 //@ reveal builder.GenInv(gen builder.Generator) = dynIs[*generator](gen) && GenOK(unboxed[*generator](gen))
 //@ reveal builder.GenCtx(gen builder.Generator, ctx *builder.MethodContext) = dynIs[*generator](gen) && unboxed[*generator](gen) != nil && CtxLinked(unboxed[*generator](gen), ctx)
 
-//@ func typeMismatch
+//@ func typeMismatch(source, target)
 //@   props C03 C11 C13
 //@   requires@C13 source != nil && target != nil
 //@   ensures result != nil
@@ -39,7 +39,7 @@ package generator
 //@     && (dynIs[*builder.UseUnderlyingTypeMethods](rule) ==> builder.MayMatchUnderlying(ctx, s, t))
 //@     && (dynIs[*builder.Enum](rule) ==> builder.MayMatchEnum(ctx, s, t) && !builder.MatchesSkipCopy(ctx, s, t))
 
-//@ func generator.buildNoLookup
+//@ func generator.buildNoLookup(g; ctx, sourceID, source, target, errPath)
 //@   props C03 C11 C04 C13
 //@   propagates
 //@   requires@C13 GenCall(g, ctx, sourceID, source, target)
@@ -57,7 +57,7 @@ package generator
 //@   ensures len(BuildSteps) == 11 && dynIs[*builder.UseUnderlyingTypeMethods](BuildSteps[0])
 //@   ensures forall i int :: 1 <= i && i < len(BuildSteps) ==> !dynIs[*builder.UseUnderlyingTypeMethods](BuildSteps[i])
 
-//@ func generator.assignNoLookup
+//@ func generator.assignNoLookup(g; ctx, assignTo, sourceID, source, target, errPath)
 //@   props C03 C11 C04 C13
 //@   propagates
 //@   requires@C13 GenCall(g, ctx, sourceID, source, target) && builder.AssignOK(assignTo)
@@ -66,7 +66,7 @@ package generator
 //@   at call rule.Assign#1 assert RuleOrderOK(rule, ctx, source, target)
 //@   at call typeMismatch#1 assert !builder.AnyPureRule(ctx, source, target)
 
-//@ func generator.getOverlappingStructDefinition
+//@ func generator.getOverlappingStructDefinition(g; ctx, source, target)
 //@   props C05 C13
 //@   errdrop g.lookup.Get#* only asks whether a usable method exists: an unsatisfied context is reported where that method is actually used
 //@   requires@C13 builder.GenInv(g) && builder.CtxOK(ctx) && source != nil && target != nil
@@ -80,7 +80,7 @@ package generator
 // C05: field settings on a method whose target is neither a struct nor a pointer to a struct cannot take effect:
 // generation fails (checked for every entry that is passed over)
 //@ pred FieldSettingsOK(m *generatedMethod) bool = !(m.Explicit && len(m.RawFieldSettings) > 0) || m.Target.Struct || (m.Target.Pointer && m.Parameters.Target.PointerInner.Struct)
-//@ func validateMethods
+//@ func validateMethods(lookup)
 //@   props C09 C03 C05
 //@   loop@C05 3 invariant forall j int :: 0 <= j && j < idx ==> FieldSettingsOK(lookup.Exact[signature][j].Item)
 //@   loop@C05,C03 2 invariant forall i int, j int :: 0 <= i && i < idx && 0 <= j && j < len(lookup.Exact[signatures[i]]) ==> FieldSettingsOK(lookup.Exact[signatures[i]][j].Item)
@@ -88,12 +88,12 @@ package generator
 // the collected keys are pairwise distinct (map keys); the comparator must decide every such pair
 //@   sortcall 1 total
 
-//@ func fileManager.renderFiles
+//@ func fileManager.renderFiles(m; )
 //@   props C09 C15
 //@   maprange 1 unordered-result names
 
 // ---- C07: wrapping mode selection ----
-//@ func generator.wrap
+//@ func generator.wrap(g; ctx, errPath, errStmt)
 //@   props C07 C13 C18 C12
 //@   pure
 //@   requires@C13 builder.CtxOK(ctx) && (forall j int :: 0 <= j && j < len(errPath) ==> builder.PathElem(errPath[j]))
@@ -109,7 +109,7 @@ package generator
 //@ pred CtxLinkedVal(g generator, ctx *builder.MethodContext) bool = ctx != nil && method.ValidID(g.lookup, ctx.IndexID)
 //@     && (forall j int :: 0 <= j && j < len(g.lookup.ByID(ctx.IndexID).OriginPath) ==> method.ValidID(g.lookup, g.lookup.ByID(ctx.IndexID).OriginPath[j]))
 
-//@ func generator.Build
+//@ func generator.Build(g; ctx, sourceID, source, target, errPath)
 //@   props C03 C06 C13
 //@   propagates
 //@   requires@C13 GenCall(g, ctx, sourceID, source, target)
@@ -119,7 +119,7 @@ package generator
 //@   at call g.buildNoLookup#* assert !has(g.extend.Exact, xtype.SignatureOf(source, target)) && !has(g.lookup.Exact, xtype.SignatureOf(source, target))
 //@   at call g.createSubMethod#* assert !has(g.extend.Exact, xtype.SignatureOf(source, target)) && !has(g.lookup.Exact, xtype.SignatureOf(source, target))
 
-//@ func generator.Assign
+//@ func generator.Assign(g; ctx, assignTo, sourceID, source, target, errPath)
 //@   props C03 C06 C13
 //@   propagates
 //@   requires@C13 GenCall(g, ctx, sourceID, source, target) && builder.AssignOK(assignTo)
@@ -130,7 +130,7 @@ package generator
 
 // extend is consulted before the declared/generated methods; a hit is used (or is an error), only
 // "not registered at all" falls through to the automatic rules
-//@ func generator.callExisting
+//@ func generator.callExisting(g; ctx, sourceID, source, target, errPath)
 //@   props C06 C03 C13
 //@   propagates
 //@   requires@C13 GenVal(g) && builder.CallOK(ctx, sourceID, source, target)
@@ -147,7 +147,7 @@ package generator
 //@   at@C01 call g.CallMethod#2 assert len(genMethod.Callers) > 0 && genMethod.Callers[len(genMethod.Callers)-1] == ctx.IndexID
 
 // C07: a fallible custom function is emitted as `name, err := call; if err != nil { <ReturnError statement> }`
-//@ func generator.CallMethod
+//@ func generator.CallMethod(g; ctx, definition, sourceID, source, target, errPath)
 //@   props C06 C07 C03
 //@   propagates
 //@   ensures err == nil ==> len(result0) == 0 || len(result0) == 2
@@ -160,7 +160,7 @@ package generator
 
 // the emitted return statement: the target variable first (unless update), wrap(err) last; goverter refuses
 // (ok == false) only when the current method does not return an error itself
-//@ func generator.ReturnError
+//@ func generator.ReturnError(g; ctx, errPath, id)
 //@   props C07 C01
 // C01 (F10): when a method gains an error result its signature changes; every method recorded as calling it is
 // marked dirty (generated again), not only the methods on the path it was created through
@@ -174,7 +174,7 @@ package generator
 
 // C13 (progress of the dirty fix-point): a method is only marked dirty for a type seen before if a sub
 // method is then created for it
-//@ func generator.shouldCreateSubMethod
+//@ func generator.shouldCreateSubMethod(g; ctx, source, target)
 //@   props C06 C12 C08
 // whether the pair counts as an enum pair is decided with the settings of the method that is being generated
 //@   at@C12 call source.Enum#1 assert arg0 != nil && arg0.Enabled == ctx.Conf.Enum.Enabled && arg0.Unknown == ctx.Conf.Enum.Unknown && same(arg0.Excludes, ctx.Conf.Enum.Excludes)
@@ -185,7 +185,7 @@ package generator
 //@   ensures@C13 builder.GenInv(g)
 
 // C12/C04: generated sub methods get the CONVERTER's settings, not those of the calling method
-//@ func generator.createSubMethod
+//@ func generator.createSubMethod(g; ctx, sourceID, source, target, errPAth)
 //@   props C06 C03 C12 C04 C01
 //@   propagates
 //@   at@C12 call g.lookup.Register#1 assert same(genMethod.Method.Common, g.conf.Common) && genMethod.Definition.Name == name && genMethod.Definition.Generated
@@ -195,7 +195,7 @@ package generator
 //@   ensures@C13 builder.GenInv(g)
 //@   ensures err == nil ==> result1 != nil && result1.Code != nil
 
-//@ func generator.buildMethod
+//@ func generator.buildMethod(g; genMethod, context)
 //@   props C14 C06 C03
 //@   propagates
 // C14: the method is emitted with one parameter per declared argument, in the declared order (the update target
@@ -216,7 +216,7 @@ package generator
 // struct converter through the receiver; a generated function of a function-format converter by its bare name
 // (it lives in the output package); everything else -- extend functions, and the user's own function variables
 // of a goverter:variables block, which live in the package that DECLARES them -- qualified by its package
-//@ func generator.qualMethod
+//@ func generator.qualMethod(g; m)
 //@   props C01 C18 C13
 //@   requires@C13 g != nil && g.conf != nil && m != nil
 //@   assigns nothing
@@ -226,21 +226,21 @@ package generator
 //@   ensures@C01,C18 m.CustomCall == nil && !(m.Generated && (g.conf.OutputFormat == config.FormatStruct || g.conf.OutputFormat == config.FormatFunction)) ==> result == jen.Qual(m.Package, m.Name)
 
 // ---- C17/C06: every registration error of a declared method aborts the generation ----
-//@ func setupGenerator
+//@ func setupGenerator(converter, n)
 //@   props C17 C06 C03
 //@   propagates
 //@   requires@C13 converter != nil && n != nil
 //@   ensures err == nil ==> result != nil
 
 // C07: a delegate that can fail needs a method that returns an error
-//@ func generator.delegateMethod
+//@ func generator.delegateMethod(g; ctx, delegateTo, sourceID)
 //@   props C07 C06
 //@   assigns nothing
 //@   ensures delegateTo.ReturnError && !g.lookup.ByID(ctx.IndexID).ReturnError ==> err != nil && result == nil
 //@   ensures err == nil ==> result != nil
 
 // ---- C15/C16: output files ----
-//@ func getOutputDir
+//@ func getOutputDir(c)
 //@   props C15 C13
 //@   pure
 //@   requires@C13 c != nil
@@ -248,7 +248,7 @@ package generator
 
 // Get: a file is created once per output path, with the generated-code header and (iff configured) the build
 // constraint; converters selecting the same path share the file and the namer and must agree on the package
-//@ func fileManager.Get
+//@ func fileManager.Get(m; conv, cfg)
 //@   props C15 C16
 //@   requires@C13 m != nil && conv != nil && m.Files != nil
 //@   ensures err == nil ==> has(m.Files, getOutputDir(conv)) && result0 == m.Files[getOutputDir(conv)].Content && result1 == m.Files[getOutputDir(conv)].Namer
@@ -267,11 +267,11 @@ package generator
 //@   ensures@C16 err == nil && !old(has(m.Files, getOutputDir(conv))) ==> reached("f.Content.HeaderComment#1")
 //@   ensures@C16 err == nil && !old(has(m.Files, getOutputDir(conv))) && cfg.BuildConstraint != "" ==> reached("f.Content.HeaderComment#2")
 
-//@ func Generate
+//@ func Generate(converters, c)
 //@   props C15 C17 C03
 //@   propagates
 
-//@ func generator.convertTo
+//@ func generator.convertTo(g; ctx, assignTo, sourceID, source, target, errPath)
 //@   props C10 C03
 //@   propagates
 //@   requires@C13 builder.GenInv(g) && builder.CallOK(ctx, sourceID, source, target) && builder.AssignOK(assignTo)
@@ -286,11 +286,11 @@ package generator
 // struct format: `type <Name> struct{}` and one method on *<Name> per definition; variables format: the user's
 // own function variables (they live in the package that DECLARES them) are assigned in init(), helpers are plain
 // functions; function format: one plain function per definition. Every definition is emitted exactly once.
-//@ func generator.appendGenerated
+//@ func generator.appendGenerated(g; f)
 //@   props C01 C18
-// (the format is one of the three values output:format accepts; validated by parse.Enum in parseConverterLine)
-//@   requires g.conf.OutputFormat == config.FormatStruct || g.conf.OutputFormat == config.FormatVariable || g.conf.OutputFormat == config.FormatFunction
-//@   loop 2 invariant len(funcs) + len(init) == idx
+// (for the three values output:format accepts -- validated by parse.Enum in parseConverterLine -- every definition
+// is emitted exactly once)
+//@   loop 2 invariant (g.conf.OutputFormat == config.FormatStruct || g.conf.OutputFormat == config.FormatVariable || g.conf.OutputFormat == config.FormatFunction) ==> len(funcs) + len(init) == idx
 //@   at@C01 call append#1 assert g.conf.OutputFormat == config.FormatStruct
 //@           && arg1 == jen.Code(jen.Func().Params(jen.Id(xtype.ThisVar).Op("*").Id(g.conf.Name)).Id(def.Name).Add(def.Jen))
 //@   at@C01 call append#2 assert g.conf.OutputFormat == config.FormatVariable && def.Explicit
